@@ -1276,46 +1276,67 @@ namespace chaiscript {
           : AST_Node_Impl<T>(std::move(t_ast_node_text), AST_Node_Type::Try, std::move(t_loc), std::move(t_children)) {
       }
 
+      /// Runs the first catch clause that accepts t_except. Must be called from inside the handler of the exception being
+      /// dispatched: when no clause accepts it, the finally block is run and the exception is rethrown unchanged; when the
+      /// clause's own body throws (or returns/breaks), the finally block is run before that leaves the try statement.
       Boxed_Value handle_exception(const chaiscript::detail::Dispatch_State &t_ss, const Boxed_Value &t_except) const {
         Boxed_Value retval;
+        bool handled = false;
 
         size_t end_point = this->children.size();
         if (this->children.back()->identifier == AST_Node_Type::Finally) {
           assert(end_point > 0);
           end_point = this->children.size() - 1;
         }
-        for (size_t i = 1; i < end_point; ++i) {
-          chaiscript::eval::detail::Scope_Push_Pop catch_scope(t_ss);
-          auto &catch_block = *this->children[i];
 
-          if (catch_block.children.size() == 1) {
-            // No variable capture
-            retval = catch_block.children[0]->eval(t_ss);
-            break;
-          } else if (catch_block.children.size() == 2 || catch_block.children.size() == 3) {
-            const auto name = Arg_List_AST_Node<T>::get_arg_name(*catch_block.children[0]);
+        try {
+          for (size_t i = 1; i < end_point; ++i) {
+            chaiscript::eval::detail::Scope_Push_Pop catch_scope(t_ss);
+            auto &catch_block = *this->children[i];
 
-            if (dispatch::Param_Types(
-                    std::vector<std::pair<std::string, Type_Info>>{Arg_List_AST_Node<T>::get_arg_type(*catch_block.children[0], t_ss)})
-                    .match(Function_Params{t_except}, t_ss.conversions())
-                    .first) {
-              t_ss.add_object(name, t_except);
+            if (catch_block.children.size() == 1) {
+              // No variable capture
+              handled = true;
+              retval = catch_block.children[0]->eval(t_ss);
+              break;
+            } else if (catch_block.children.size() == 2 || catch_block.children.size() == 3) {
+              const auto name = Arg_List_AST_Node<T>::get_arg_name(*catch_block.children[0]);
 
-              if (catch_block.children.size() == 2) {
-                // Variable capture
-                retval = catch_block.children[1]->eval(t_ss);
-                break;
+              if (dispatch::Param_Types(
+                      std::vector<std::pair<std::string, Type_Info>>{Arg_List_AST_Node<T>::get_arg_type(*catch_block.children[0], t_ss)})
+                      .match(Function_Params{t_except}, t_ss.conversions())
+                      .first) {
+                t_ss.add_object(name, t_except);
+
+                if (catch_block.children.size() == 2) {
+                  // Variable capture
+                  handled = true;
+                  retval = catch_block.children[1]->eval(t_ss);
+                  break;
+                }
               }
+            } else {
+              throw exception::eval_error("Internal error: catch block size unrecognized");
             }
-          } else {
-            if (this->children.back()->identifier == AST_Node_Type::Finally) {
-              this->children.back()->children[0]->eval(t_ss);
-            }
-            throw exception::eval_error("Internal error: catch block size unrecognized");
           }
+        } catch (...) {
+          eval_finally(t_ss);
+          throw;
+        }
+
+        if (!handled) {
+          // no clause accepted the exception: it keeps travelling outward, with its original type
+          eval_finally(t_ss);
+          throw;
         }
 
         return retval;
+      }
+
+      void eval_finally(const chaiscript::detail::Dispatch_State &t_ss) const {
+        if (this->children.back()->identifier == AST_Node_Type::Finally) {
+          this->children.back()->children[0]->eval(t_ss);
+        }
       }
 
       Boxed_Value eval_internal(const chaiscript::detail::Dispatch_State &t_ss) const override {
@@ -1336,9 +1357,7 @@ namespace chaiscript {
         } catch (Boxed_Value &e) {
           retval = handle_exception(t_ss, e);
         } catch (...) {
-          if (this->children.back()->identifier == AST_Node_Type::Finally) {
-            this->children.back()->children[0]->eval(t_ss);
-          }
+          eval_finally(t_ss);
           throw;
         }
 
